@@ -9,7 +9,14 @@ def run_sim(r, scenario, seed, tier, variants, profiles, nshards=4, extra=None, 
     words_files = []
     for v in variants:
         for prof in profiles:
-            exe, changes = simgen.build(v, prof)
+            try:
+                exe, changes = simgen.build(v, prof)
+            except core.HarnessError as e:
+                # the emitters no longer compile against the shim (their interface to `common` changed): the
+                # simulation part cannot say anything; whatever else the check decided stands on its own
+                r.add_case("sim/%s/%s" % (v, prof), -9, "sim-engine/build", "inconclusive", "sim-engine-does-not-build-against-this-tree", {"error": str(e)[-600:]})
+                r.notes.append("sim engine (%s/%s) does not build against the tree under test: its part is inconclusive" % (v, prof))
+                continue
             r.observe("source_transformations_%s" % v, changes)
             wf = os.path.join(core.BUILD, "runs", "words-%s-%s-%s-%d" % (scenario, v, prof, os.getpid()))
             ex = dict(extra or {})
